@@ -67,7 +67,9 @@ func checksProto() {
 	// zero for nil" iff proto.String / proto.Bool return a cell holding their argument
 	aStr := axiom(F, "s_cell-of-proto-String", 85, `forall v string :: s_strOf(proto.String(v)) == v`)
 	aBool := axiom(F, "s_cell-of-proto-Bool", 86, `forall v bool :: s_boolOf(proto.Bool(v)) == v`)
-	check("proto.String / proto.Bool return a cell that holds the argument (model: s_strOf(p) = *p, s_boolOf(p) = *p, zero for nil)", []contract{aStr, aBool},
+	aZero := axiom(F, "s_unset-cell-is-zero", 84, `forall p ref :: p == nil ==> s_strOf(p) == "" && !s_boolOf(p) && s_editionOf(p) == 0`)
+	notes[aZero.key()] = "part of the definition of the model (content of the cell, zero for nil); consistent with the two proto.String / proto.Bool axioms because those never return nil (checked)"
+	check("proto.String / proto.Bool return a non-nil cell that holds the argument (model: s_strOf(p) = *p, s_boolOf(p) = *p, zero for the nil cell)", []contract{aZero, aStr, aBool},
 		"all strings over {a 0x00 0xff} up to length 4; both booleans", func(t *T) {
 			enum("a\x00\xff", 4, func(s string) {
 				t.Case()
